@@ -25,11 +25,14 @@ def load_prefix(uri: str, ns_map: dict) -> str | None:
 def generate_prefix(uri: str, ns_map: dict) -> str:
     """Generate a prefix for the given uri and append it in the prefix-URI map."""
     namespace = Namespace.get_enum(uri)
-    if namespace:
-        prefix = namespace.prefix
-    else:
+    prefix = namespace.prefix if namespace else None
+    if prefix is None or ns_map.get(prefix, uri) != uri:
+        # Never rebind a prefix that is already in use for another uri
         number = len(ns_map)
         prefix = f"ns{number}"
+        while ns_map.get(prefix, uri) != uri:
+            number += 1
+            prefix = f"ns{number}"
 
     ns_map[prefix] = uri
 
